@@ -4,3 +4,4 @@ import Model.Gen.Wire
 import Model.Gen.Timeout
 import Model.Gen.Inproc
 import Model.Codes
+import Model.Timeout
